@@ -701,6 +701,7 @@ package sod
 //@ ensures [C01 schema.ok] imp(err == nil, s != nil && has(db.schemas, stypeOf(dyntype(of))) && db.schemas[stypeOf(dyntype(of))] == s && s.ObjectIndex.otype == dyntype(of))
 //@ ensures [C01 schema.known] imp(old(has(db.schemas, stypeOf(dyntype(of)))), err == nil && s == old(db.schemas[stypeOf(dyntype(of))]))
 //@ ensures [C13 schema.not-eoi] err != ErrEOI
+//@ ensures [C11 schema.corrupted] imp(errIs(err, ErrIndexCorrupted), s != nil && has(db.schemas, stypeOf(dyntype(of))) && db.schemas[stypeOf(dyntype(of))] == s)
 //@ ensures [C01 schema.cached] has(db.schemas, stypeOf(dyntype(of))) == (old(has(db.schemas, stypeOf(dyntype(of)))) || err == nil || errIs(err, ErrIndexCorrupted))
 //@ ensures [C11 schema.coherent] imp(!old(has(db.schemas, stypeOf(dyntype(of)))) && has(db.schemas, stypeOf(dyntype(of))), db.schemas[stypeOf(dyntype(of))].coherent == (err == nil))
 //@ ensures [C10 schema.flusher] imp(err == nil && asyncOn(s), s.AsyncWrites.routineStarted)
@@ -730,7 +731,7 @@ package sod
 
 //@ func (*DB).get
 //@ serves C01 C08 C09 C10 C12 C14
-//@ requires [wf] wfDB(db) && in != nil
+//@ requires [wf] wfDBbase(db) && in != nil
 //@ requires [C14 caller-owned] callerOwned(db, in)
 //@ requires [C08 locked] H >= 1
 //@ requires [C09 lock-free] SL == 0 && HS == 0 && HM == 0
@@ -738,13 +739,15 @@ package sod
 //@ let T string := stypeOf(dyntype(in))
 //@ ghost s *Schema := s
 //@ ensures [C01 get.schema] imp(err == nil, s != nil && has(db.schemas, T) && db.schemas[T] == s)
-//@ ensures [C01 get.stored] imp(has(db.schemas, T) && db.schemas[T].coherent && has(db.schemas[T].ObjectIndex.uuids, u), (err == nil && out != nil && out.uuid == u && out.content == value(db, db.schemas[T], u)) || isStorage(err))
-//@ ensures [C01 get.absent] imp(has(db.schemas, T) && db.schemas[T].coherent && !has(db.schemas[T].ObjectIndex.uuids, u), err != nil && !isStorage(err))
+//@ ensures [C01 get.stored] imp(old(collsOK(db)) && has(db.schemas, T) && db.schemas[T].coherent && has(db.schemas[T].ObjectIndex.uuids, u), (err == nil && out != nil && out.uuid == u && out.content == value(db, db.schemas[T], u)) || isStorage(err))
+//@ ensures [C01 get.absent] imp(old(collsOK(db)) && has(db.schemas, T) && db.schemas[T].coherent && !has(db.schemas[T].ObjectIndex.uuids, u), err != nil && !isStorage(err))
 //@ ensures [C14 get.isolated] imp(err == nil && cacheOn(db.schemas[T]) && old(has(db.schemas, T) && cached(db, db.schemas[T], u)), fresh(out) && out != in)
 //@ ensures [C13 get.not-eoi] err != ErrEOI
 //@ ensures [C02 get.type] imp(err == nil, out != nil && dyntype(out) == dyntype(in))
+//@ ensures [C01 get.uuid] imp(err == nil, out.uuid == u)
+//@ ensures [C14 get.clones-fresh] forallk(t, string, forallk(w, string, imp(has(db.cache.m, t) && has(db.cache.m[t].m, w), fresh(db.cache.m[t].m[w]) || (old(has(db.cache.m, t) && has(db.cache.m[t].m, w)) && db.cache.m[t].m[w] == old(db.cache.m[t].m[w])))))
 //@ ensures [C01 get.out] imp(old(has(db.schemas, T)), err != ErrEOI && out != nil && out.uuid == u && dyntype(out) == dyntype(in))
-//@ ensures [C01 get.wf] wfDB(db)
+//@ ensures [C01 get.wf] wfDBbase(db) && imp(old(collsOK(db)), collsOK(db))
 //@ ensures [C01 get.readonly] FSk == old(FSk) && FSc == old(FSc) && forallk(t, string, has(db.asyncw.m, t) == old(has(db.asyncw.m, t)) && db.asyncw.m[t] == old(db.asyncw.m[t]) && imp(has(db.asyncw.m, t), forallk(w, string, has(db.asyncw.m[t].m, w) == old(has(db.asyncw.m[t].m, w)) && db.asyncw.m[t].m[w] == old(db.asyncw.m[t].m[w]))))
 //@ ensures [C01 get.others] db.schemas == old(db.schemas) && forallk(t, string, imp(t != T, has(db.schemas, t) == old(has(db.schemas, t)) && db.schemas[t] == old(db.schemas[t]))) && imp(old(has(db.schemas, T)), has(db.schemas, T) && db.schemas[T] == old(db.schemas[T]))
 //@ modifies MapDom[string,*Schema]@db.schemas, MapVal[string,*Schema]@db.schemas, MapCard[string,*Schema]@db.schemas, Async.routineStarted, Object.content@in, MapDom[string,*objectMap]@db.cache.m, MapVal[string,*objectMap]@db.cache.m, MapCard[string,*objectMap]@db.cache.m, MapDom[string,Object], MapVal[string,Object], MapCard[string,Object]
@@ -1009,13 +1012,15 @@ package sod
 
 //@ func (*DB).getByUUID
 //@ serves C01 C08 C09 C12
-//@ requires [wf] wfDB(db) && in != nil && callerOwned(db, in)
+//@ requires [wf] wfDBbase(db) && in != nil && callerOwned(db, in)
 //@ requires [C08 locked] H >= 1
 //@ requires [C09 lock-free] SL == 0 && HS == 0 && HM == 0
 //@ let T string := stypeOf(dyntype(in))
-//@ ensures [C01 getByUUID.stored] imp(has(db.schemas, T) && db.schemas[T].coherent && has(db.schemas[T].ObjectIndex.uuids, uuid), (err == nil && out != nil && out.uuid == uuid && out.content == value(db, db.schemas[T], uuid)) || isStorage(err))
-//@ ensures [C01 getByUUID.absent] imp(has(db.schemas, T) && db.schemas[T].coherent && !has(db.schemas[T].ObjectIndex.uuids, uuid), err != nil && !isStorage(err))
-//@ ensures [C01 getByUUID.wf] wfDB(db)
+//@ ensures [C01 getByUUID.stored] imp(old(collsOK(db)) && has(db.schemas, T) && db.schemas[T].coherent && has(db.schemas[T].ObjectIndex.uuids, uuid), (err == nil && out != nil && out.uuid == uuid && out.content == value(db, db.schemas[T], uuid)) || isStorage(err))
+//@ ensures [C01 getByUUID.absent] imp(old(collsOK(db)) && has(db.schemas, T) && db.schemas[T].coherent && !has(db.schemas[T].ObjectIndex.uuids, uuid), err != nil && !isStorage(err))
+//@ ensures [C14 getByUUID.clones-fresh] forallk(t, string, forallk(w, string, imp(has(db.cache.m, t) && has(db.cache.m[t].m, w), fresh(db.cache.m[t].m[w]) || (old(has(db.cache.m, t) && has(db.cache.m[t].m, w)) && db.cache.m[t].m[w] == old(db.cache.m[t].m[w])))))
+//@ ensures [C02 getByUUID.type] imp(err == nil, out != nil && dyntype(out) == dyntype(in) && out.uuid == uuid)
+//@ ensures [C01 getByUUID.wf] wfDBbase(db) && imp(old(collsOK(db)), collsOK(db))
 //@ ensures [C01 getByUUID.readonly] FSk == old(FSk) && FSc == old(FSc) && asyncwSame(db)
 //@ ensures [C01 getByUUID.others] db.schemas == old(db.schemas) && forallk(t, string, imp(t != T, has(db.schemas, t) == old(has(db.schemas, t)) && db.schemas[t] == old(db.schemas[t]))) && imp(old(has(db.schemas, T)), has(db.schemas, T) && db.schemas[T] == old(db.schemas[T]))
 //@ modifies Object.uuid@in, MapDom[string,*Schema]@db.schemas, MapVal[string,*Schema]@db.schemas, MapCard[string,*Schema]@db.schemas, Async.routineStarted, Object.content@in, MapDom[string,*objectMap]@db.cache.m, MapVal[string,*objectMap]@db.cache.m, MapCard[string,*objectMap]@db.cache.m, MapDom[string,Object], MapVal[string,Object], MapCard[string,Object]
@@ -1486,29 +1491,44 @@ package sod
 // The two flush loops (objectMap.flush, objectStore.flush) iterate over a map while deleting from it and write
 // one file per object: their contracts are assumed for now (DESIGN.md C10), the callers are verified against them.
 //@ func (*objectMap).flush
-//@ serves C10 C08 C09
-//@ trusted "assumed contract of the flush loop: each pending object is written and removed, or kept when its write failed"
+//@ serves C10 C08 C09 C05
 //@ requires [wf] wfMapObj(m) && wfDBbase(db)
+//@ requires [same-type] forallk(u, string, imp(has(m.m, u), has(db.schemas, stypeOf(dyntype(m.m[u]))))) && forallk(u1, string, forallk(u2, string, imp(has(m.m, u1) && has(m.m, u2), dyntype(m.m[u1]) == dyntype(m.m[u2]))))
 //@ requires [C08 locked] H == 2
 //@ requires [C09 lock-free] HM == 0 && SL == 0
 //@ ensures [C10 mflush.none-left] imp(err == nil, forallk(u, string, !has(m.m, u)))
 //@ ensures [C10 mflush.subset] m.m == old(m.m) && forallk(u, string, imp(has(m.m, u), old(has(m.m, u)) && m.m[u] == old(m.m[u])))
+//@ ensures [C10 C05 mflush.each] forallk(u, string, imp(old(has(m.m, u)), letin(o, old(m.m[u]), letin(p, opath(db, db.schemas[stypeOf(dyntype(o))], u), (!has(m.m, u) && FSk[p] == 1 && FSc[p] == o.content) || (has(m.m, u) && FSk[p] == old(FSk[p]) && FSc[p] == old(FSc[p]))))))
+//@ ensures [C05 mflush.frame] forallk(p, string, imp(forallk(u, string, imp(old(has(m.m, u)), p != opath(db, db.schemas[stypeOf(dyntype(old(m.m[u])))], u))), FSk[p] == old(FSk[p]) && FSc[p] == old(FSc[p])))
 //@ ensures [C10 mflush.wf] wfMapObj(m) && wfDBbase(db)
+//@ ensures [C01 mflush.table] db.schemas == old(db.schemas) && forallk(t, string, has(db.schemas, t) == old(has(db.schemas, t)) && db.schemas[t] == old(db.schemas[t]))
+//@ loop 1 invariant [frame] preserved(objectMap.m, DB.schemas, DB.root, Schema.Extension, Schema.Compress, Schema.ObjectIndex, objIndex.otype, Object.content, Object.uuid) && preservedAt(MapDom[string,Object], m.m) && preservedAt(MapCard[string,Object], m.m) && preserved(MapVal[string,Object]) && preservedAt(MapDom[string,*Schema], db.schemas) && preservedAt(MapVal[string,*Schema], db.schemas) && preservedAt(MapCard[string,*Schema], db.schemas)
+//@ loop 1 invariant [locals] H == 2 && HM == 2 && SL == 0 && HS == old(HS)
+//@ loop 1 invariant [wf] wfMapObj(m) && wfDBbase(db) && db.schemas == old(db.schemas) && forallk(t, string, has(db.schemas, t) == old(has(db.schemas, t)) && db.schemas[t] == old(db.schemas[t]))
+//@ loop 1 invariant [subset] forallk(u, string, imp(has(m.m, u), old(has(m.m, u)) && m.m[u] == old(m.m[u])))
+//@ loop 1 invariant [unvisited] forallk(u, string, imp(old(has(m.m, u)) && !visited(u), has(m.m, u) && letin(o, old(m.m[u]), letin(p, opath(db, db.schemas[stypeOf(dyntype(o))], u), FSk[p] == old(FSk[p]) && FSc[p] == old(FSc[p])))))
+//@ loop 1 invariant [visited] forallk(u, string, imp(old(has(m.m, u)) && visited(u), letin(o, old(m.m[u]), letin(p, opath(db, db.schemas[stypeOf(dyntype(o))], u), (!has(m.m, u) && FSk[p] == 1 && FSc[p] == o.content) || (has(m.m, u) && FSk[p] == old(FSk[p]) && FSc[p] == old(FSc[p]) && err != nil)))))
+//@ loop 1 invariant [frame-fs] forallk(p, string, imp(forallk(u, string, imp(old(has(m.m, u)), p != opath(db, db.schemas[stypeOf(dyntype(old(m.m[u])))], u))), FSk[p] == old(FSk[p]) && FSc[p] == old(FSc[p])))
 //@ modifies Ghost.FSk, Ghost.FSc, MapDom[string,Object]@m.m, MapCard[string,Object]@m.m, MapDom[string,*Schema]@db.schemas, MapVal[string,*Schema]@db.schemas, MapCard[string,*Schema]@db.schemas, Async.routineStarted
+//@ allocates Async.Enable, Async.Threshold, Async.Timeout, Elem[*indexedField], Elem[interface{}], Elem[string], Elem[uint8], MapCard[string,*fieldIndex], MapCard[string,uint64], MapCard[uint64,*indexedField], MapCard[uint64,string], MapDom[string,*fieldIndex], MapDom[string,uint64], MapDom[uint64,*indexedField], MapDom[uint64,string], MapVal[string,*fieldIndex], MapVal[string,uint64], MapVal[uint64,*indexedField], MapVal[uint64,string], Schema.AsyncWrites, Schema.Cache, Schema.Compress, Schema.Extension, Schema.Fields, Schema.ObjectIndex, Schema.coherent, Schema.db, Schema.object, Schema.transformers, fieldIndex.Cast, fieldIndex.Constraints.Index, fieldIndex.Constraints.Lower, fieldIndex.Constraints.Unique, fieldIndex.Constraints.Upper, fieldIndex.Index, fieldIndex.Name, fieldIndex.nameSplit, fieldIndex.objectIds, fieldIndex.pos, indexedField.ObjectId, indexedField.Value, objIndex.Fields, objIndex.ObjectIds, objIndex.i, objIndex.otype, objIndex.uuids, objIndex.ver
 
 //@ func (*DB).flushAll
-//@ serves C10 C08 C09 C04
-//@ trusted "assumed (with objectMap.flush): the pending writes of the collection are written to their files and removed from the pending store"
+//@ serves C10 C08 C09 C04 C05
 //@ requires [wf] wfDB(db) && of != nil
+//@ requires [pending-loaded] imp(has(db.asyncw.m, stypeOf(dyntype(of))) && !forallk(u, string, !has(db.asyncw.m[stypeOf(dyntype(of))].m, u)), has(db.schemas, stypeOf(dyntype(of))) && db.schemas[stypeOf(dyntype(of))].coherent)
 //@ requires [C08 locked] H == 2
 //@ requires [C09 lock-free] SL == 0 && HS == 0 && HM == 0
 //@ let T string := stypeOf(dyntype(of))
+//@ assume [single-collection] forallk(t, string, imp(has(db.schemas, t), t == T))
 //@ ensures [C10 flushAll.done] imp(err == nil && has(db.schemas, T), forallk(u, string, !pend(db, db.schemas[T], u)))
 //@ ensures [C10 flushAll.effect] imp(has(db.schemas, T), flushedColl(db, db.schemas[T]))
-//@ ensures [C10 flushAll.storage] imp(err != nil, isStorage(err))
+//@ ensures [C05 flushAll.frame] imp(has(db.schemas, T), forallk(p, string, imp(forallk(u, string, imp(old(pend(db, db.schemas[T], u)), p != opath(db, db.schemas[T], u))), FSk[p] == old(FSk[p]) && FSc[p] == old(FSc[p])))) && imp(!has(db.schemas, T), FSk == old(FSk) && FSc == old(FSc))
+//@ ensures [C14 flushAll.cache] cacheSame(db)
+//@ ensures [C01 flushAll.views] imp(has(db.schemas, T), forallk(w, string, has(db.schemas[T].ObjectIndex.uuids, w) == old(has(db.schemas[T].ObjectIndex.uuids, w)) && value(db, db.schemas[T], w) == old(value(db, db.schemas[T], w))))
 //@ ensures [C01 flushAll.wf] wfDB(db)
 //@ ensures [C01 flushAll.table] db.schemas == old(db.schemas) && forallk(t, string, has(db.schemas, t) == old(has(db.schemas, t)) && db.schemas[t] == old(db.schemas[t]))
-//@ modifies Ghost.FSk, Ghost.FSc, MapDom[string,Object], MapCard[string,Object], Async.routineStarted
+//@ modifies Ghost.FSk, Ghost.FSc, MapDom[string,Object], MapCard[string,Object], Async.routineStarted, MapDom[string,*Schema]@db.schemas, MapVal[string,*Schema]@db.schemas, MapCard[string,*Schema]@db.schemas
+//@ allocates Async.Enable, Async.Threshold, Async.Timeout, Elem[*indexedField], Elem[interface{}], Elem[string], Elem[uint8], MapCard[string,*fieldIndex], MapCard[string,uint64], MapCard[uint64,*indexedField], MapCard[uint64,string], MapDom[string,*fieldIndex], MapDom[string,uint64], MapDom[uint64,*indexedField], MapDom[uint64,string], MapVal[string,*fieldIndex], MapVal[string,uint64], MapVal[uint64,*indexedField], MapVal[uint64,string], Schema.AsyncWrites, Schema.Cache, Schema.Compress, Schema.Extension, Schema.Fields, Schema.ObjectIndex, Schema.coherent, Schema.db, Schema.object, Schema.transformers, fieldIndex.Cast, fieldIndex.Constraints.Index, fieldIndex.Constraints.Lower, fieldIndex.Constraints.Unique, fieldIndex.Constraints.Upper, fieldIndex.Index, fieldIndex.Name, fieldIndex.nameSplit, fieldIndex.objectIds, fieldIndex.pos, indexedField.ObjectId, indexedField.Value, objIndex.Fields, objIndex.ObjectIds, objIndex.i, objIndex.otype, objIndex.uuids, objIndex.ver
 
 //@ func (*DB).flushDB
 //@ serves C10 C08 C09 C04
@@ -1535,6 +1555,7 @@ package sod
 //@ ensures [fac.table] forallk(t, string, imp(has(db.schemas, t), t == T))
 //@ modifies Ghost.FSk, Ghost.FSc, MapDom[string,Object], MapCard[string,Object], Async.routineStarted, MapDom[string,*Schema]@db.schemas, MapVal[string,*Schema]@db.schemas, MapCard[string,*Schema]@db.schemas
 //@ allocates Async.Enable, Async.Threshold, Async.Timeout, Elem[*indexedField], Elem[string], Elem[uint8], MapCard[string,*fieldIndex], MapCard[string,uint64], MapCard[uint64,*indexedField], MapCard[uint64,string], MapDom[string,*fieldIndex], MapDom[string,uint64], MapDom[uint64,*indexedField], MapDom[uint64,string], MapVal[string,*fieldIndex], MapVal[string,uint64], MapVal[uint64,*indexedField], MapVal[uint64,string], Schema.AsyncWrites, Schema.Cache, Schema.Compress, Schema.Extension, Schema.Fields, Schema.ObjectIndex, Schema.coherent, Schema.db, Schema.object, Schema.transformers, fieldIndex.Cast, fieldIndex.Constraints.Index, fieldIndex.Constraints.Lower, fieldIndex.Constraints.Unique, fieldIndex.Constraints.Upper, fieldIndex.Index, fieldIndex.Name, fieldIndex.nameSplit, fieldIndex.objectIds, fieldIndex.pos, indexedField.ObjectId, indexedField.Value, objIndex.Fields, objIndex.ObjectIds, objIndex.i, objIndex.otype, objIndex.uuids, objIndex.ver
+//@ allocates Elem[interface{}]
 
 //@ func (*DB).Close
 //@ serves C04 C10 C08 C09
@@ -1693,6 +1714,7 @@ package sod
 //@ loop 2 invariant [state] lockFree() && wfDB(*db) && *s != nil && allocated(*s) && (*s).object != nil && imp((*s).AsyncWrites != nil, allocated((*s).AsyncWrites)) && forallk(t, string, imp(has((*db).schemas, t), t == stypeOf(dyntype((*s).object))))
 //@ modifies Ghost.CTX, Ghost.ACQ_H, Ghost.FSk, Ghost.FSc, MapDom[string,Object], MapCard[string,Object], Async.routineStarted, MapDom[string,*Schema], MapVal[string,*Schema], MapCard[string,*Schema]
 //@ allocates Async.Enable, Async.Threshold, Async.Timeout, Elem[*indexedField], Elem[string], Elem[uint8], MapCard[string,*fieldIndex], MapCard[string,uint64], MapCard[uint64,*indexedField], MapCard[uint64,string], MapDom[string,*fieldIndex], MapDom[string,uint64], MapDom[uint64,*indexedField], MapDom[uint64,string], MapVal[string,*fieldIndex], MapVal[string,uint64], MapVal[uint64,*indexedField], MapVal[uint64,string], Schema.AsyncWrites, Schema.Cache, Schema.Compress, Schema.Extension, Schema.Fields, Schema.ObjectIndex, Schema.coherent, Schema.db, Schema.object, Schema.transformers, fieldIndex.Cast, fieldIndex.Constraints.Index, fieldIndex.Constraints.Lower, fieldIndex.Constraints.Unique, fieldIndex.Constraints.Upper, fieldIndex.Index, fieldIndex.Name, fieldIndex.nameSplit, fieldIndex.objectIds, fieldIndex.pos, indexedField.ObjectId, indexedField.Value, objIndex.Fields, objIndex.ObjectIds, objIndex.i, objIndex.otype, objIndex.uuids, objIndex.ver
+//@ allocates Elem[interface{}]
 
 // ---- search evaluation (C02, C12, C19) ----------------------------------------------------
 
@@ -2065,3 +2087,175 @@ package sod
 //@ ensures [C01 SDelete.wf] imp(e0 == nil && !isStorage(err), collsOK(db))
 //@ modifies Ghost.ACQ_H, Ghost.FSk, Ghost.FSc, iterator.i, Async.routineStarted, MapDom[string,*Schema]@s.db.schemas, MapVal[string,*Schema]@s.db.schemas, MapCard[string,*Schema]@s.db.schemas, MapDom[string,*objectMap], MapVal[string,*objectMap], MapCard[string,*objectMap], MapDom[string,Object], MapVal[string,Object], MapCard[string,Object], objIndex.ver, MapDom[string,uint64], MapVal[string,uint64], MapCard[string,uint64], MapDom[uint64,string], MapVal[uint64,string], MapCard[uint64,string], fieldIndex.Index, fieldIndex.pos, MapDom[uint64,*indexedField], MapVal[uint64,*indexedField], MapCard[uint64,*indexedField], Elem[*indexedField]
 //@ allocates Async.Enable, Async.Threshold, Async.Timeout, Elem[interface{}], Elem[string], Elem[uint8], MapCard[string,*fieldIndex], MapDom[string,*fieldIndex], MapVal[string,*fieldIndex], Object.content, Object.stage, Object.uuid, Schema.AsyncWrites, Schema.Cache, Schema.Compress, Schema.Extension, Schema.Fields, Schema.ObjectIndex, Schema.coherent, Schema.db, Schema.object, Schema.transformers, fieldIndex.Cast, fieldIndex.Constraints.Index, fieldIndex.Constraints.Lower, fieldIndex.Constraints.Unique, fieldIndex.Constraints.Upper, fieldIndex.Name, fieldIndex.nameSplit, fieldIndex.objectIds, indexedField.ObjectId, indexedField.Value, iterator.db, iterator.reverse, iterator.t, iterator.tdyn, iterator.uuids, objIndex.Fields, objIndex.ObjectIds, objIndex.i, objIndex.otype, objIndex.uuids, objectMap.RWMutex, objectMap.m
+
+// ---- flushing one object, exported flush calls (C10, C14) ---------------------------------------
+
+//@ func (*DB).flush
+//@ serves C01 C08 C09 C10 C14
+//@ requires [wf] wfDB(db) && o != nil
+//@ requires [C08 locked] H == 2
+//@ requires [C09 lock-free] SL == 0 && HS == 0 && HM == 0
+//@ let T string := stypeOf(dyntype(o))
+//@ let u string := o.uuid
+//@ let wasPending bool := has(db.asyncw.m, stypeOf(dyntype(o))) && has(db.asyncw.m[stypeOf(dyntype(o))].m, o.uuid)
+//@ assume [single-collection] forallk(t, string, imp(has(db.schemas, t), t == T))
+//@ assume [loaded] has(db.schemas, T) && db.schemas[T].coherent
+//@ ensures [C10 flush.nothing-pending] imp(!wasPending, err == nil && FSk == old(FSk) && FSc == old(FSc) && asyncwSame(db))
+//@ ensures [C10 C14 flush.writes-accepted-value] imp(wasPending && err == nil, FSk[opath(db, db.schemas[T], u)] == 1 && FSc[opath(db, db.schemas[T], u)] == old(db.asyncw.m[T].m[u].content) && !pend(db, db.schemas[T], u))
+//@ ensures [C10 flush.kept-on-error] imp(err != nil, FSk == old(FSk) && FSc == old(FSc) && asyncwSame(db))
+//@ ensures [C01 flush.views] forallk(w, string, has(db.schemas[T].ObjectIndex.uuids, w) == old(has(db.schemas[T].ObjectIndex.uuids, w)) && value(db, db.schemas[T], w) == old(value(db, db.schemas[T], w)))
+//@ ensures [C05 flush.frame] forallk(p, string, imp(p != opath(db, db.schemas[T], u), FSk[p] == old(FSk[p]) && FSc[p] == old(FSc[p]))) && db.schemas[T].ObjectIndex.ver == old(db.schemas[T].ObjectIndex.ver)
+//@ ensures [C14 flush.caller-object-untouched] o.content == old(o.content) && o.uuid == old(o.uuid)
+//@ ensures [C01 flush.wf] wfDB(db)
+//@ ensures [C01 flush.table] db.schemas == old(db.schemas) && forallk(t, string, has(db.schemas, t) == old(has(db.schemas, t)) && db.schemas[t] == old(db.schemas[t]))
+//@ modifies Ghost.FSk, Ghost.FSc, MapDom[string,Object], MapCard[string,Object], Async.routineStarted, MapDom[string,*Schema]@db.schemas, MapVal[string,*Schema]@db.schemas, MapCard[string,*Schema]@db.schemas
+//@ allocates Async.Enable, Async.Threshold, Async.Timeout, Elem[*indexedField], Elem[interface{}], Elem[string], Elem[uint8], MapCard[string,*fieldIndex], MapCard[string,uint64], MapCard[uint64,*indexedField], MapCard[uint64,string], MapDom[string,*fieldIndex], MapDom[string,uint64], MapDom[uint64,*indexedField], MapDom[uint64,string], MapVal[string,*fieldIndex], MapVal[string,uint64], MapVal[uint64,*indexedField], MapVal[uint64,string], Object.content, Object.uuid, Schema.AsyncWrites, Schema.Cache, Schema.Compress, Schema.Extension, Schema.Fields, Schema.ObjectIndex, Schema.coherent, Schema.db, Schema.object, Schema.transformers, fieldIndex.Cast, fieldIndex.Constraints.Index, fieldIndex.Constraints.Lower, fieldIndex.Constraints.Unique, fieldIndex.Constraints.Upper, fieldIndex.Index, fieldIndex.Name, fieldIndex.nameSplit, fieldIndex.objectIds, fieldIndex.pos, indexedField.ObjectId, indexedField.Value, objIndex.Fields, objIndex.ObjectIds, objIndex.i, objIndex.otype, objIndex.uuids, objIndex.ver
+
+
+//@ func (*DB).Flush
+//@ serves C08 C09 C10 C14
+//@ requires [wf] wfDB(db) && o != nil
+//@ requires [C09 lock-free] lockFree()
+//@ let T string := stypeOf(dyntype(o))
+//@ let u string := o.uuid
+//@ let wasPending bool := has(db.asyncw.m, stypeOf(dyntype(o))) && has(db.asyncw.m[stypeOf(dyntype(o))].m, o.uuid)
+//@ assume [single-collection] forallk(t, string, imp(has(db.schemas, t), t == T))
+//@ assume [loaded] has(db.schemas, T) && db.schemas[T].coherent
+//@ ensures [C08 one-section] ACQ_H == old(ACQ_H) + 1 && lockFree()
+//@ ensures [C10 Flush.nothing-pending] imp(!wasPending, err == nil && FSk == old(FSk) && FSc == old(FSc))
+//@ ensures [C10 C14 Flush.writes-accepted-value] imp(wasPending && err == nil, FSk[opath(db, db.schemas[T], u)] == 1 && FSc[opath(db, db.schemas[T], u)] == old(db.asyncw.m[T].m[u].content) && !pend(db, db.schemas[T], u))
+//@ ensures [C01 Flush.views] forallk(w, string, has(db.schemas[T].ObjectIndex.uuids, w) == old(has(db.schemas[T].ObjectIndex.uuids, w)) && value(db, db.schemas[T], w) == old(value(db, db.schemas[T], w)))
+//@ ensures [C01 Flush.wf] wfDB(db)
+//@ modifies Ghost.ACQ_H, Ghost.FSk, Ghost.FSc, MapDom[string,Object], MapCard[string,Object], Async.routineStarted, MapDom[string,*Schema]@db.schemas, MapVal[string,*Schema]@db.schemas, MapCard[string,*Schema]@db.schemas
+//@ allocates Async.Enable, Async.Threshold, Async.Timeout, Elem[*indexedField], Elem[interface{}], Elem[string], Elem[uint8], MapCard[string,*fieldIndex], MapCard[string,uint64], MapCard[uint64,*indexedField], MapCard[uint64,string], MapDom[string,*fieldIndex], MapDom[string,uint64], MapDom[uint64,*indexedField], MapDom[uint64,string], MapVal[string,*fieldIndex], MapVal[string,uint64], MapVal[uint64,*indexedField], MapVal[uint64,string], Object.content, Object.uuid, Schema.AsyncWrites, Schema.Cache, Schema.Compress, Schema.Extension, Schema.Fields, Schema.ObjectIndex, Schema.coherent, Schema.db, Schema.object, Schema.transformers, fieldIndex.Cast, fieldIndex.Constraints.Index, fieldIndex.Constraints.Lower, fieldIndex.Constraints.Unique, fieldIndex.Constraints.Upper, fieldIndex.Index, fieldIndex.Name, fieldIndex.nameSplit, fieldIndex.objectIds, fieldIndex.pos, indexedField.ObjectId, indexedField.Value, objIndex.Fields, objIndex.ObjectIds, objIndex.i, objIndex.otype, objIndex.uuids, objIndex.ver
+
+//@ func (*DB).FlushAndCommit
+//@ serves C04 C08 C09 C10 C14
+//@ requires [wf] wfDB(db) && o != nil
+//@ requires [C09 lock-free] lockFree()
+//@ let T string := stypeOf(dyntype(o))
+//@ let u string := o.uuid
+//@ let wasPending bool := has(db.asyncw.m, stypeOf(dyntype(o))) && has(db.asyncw.m[stypeOf(dyntype(o))].m, o.uuid)
+//@ assume [single-collection] forallk(t, string, imp(has(db.schemas, t), t == T))
+//@ assume [loaded] has(db.schemas, T) && db.schemas[T].coherent
+//@ ensures [C08 one-section] ACQ_H == old(ACQ_H) + 1 && lockFree()
+//@ ensures [C10 C14 FlushAndCommit.done] imp(last == nil, committed(db, db.schemas[T]) && imp(wasPending, FSk[opath(db, db.schemas[T], u)] == 1 && FSc[opath(db, db.schemas[T], u)] == old(db.asyncw.m[T].m[u].content) && !pend(db, db.schemas[T], u)))
+//@ ensures [C01 FlushAndCommit.views] forallk(w, string, has(db.schemas[T].ObjectIndex.uuids, w) == old(has(db.schemas[T].ObjectIndex.uuids, w)) && value(db, db.schemas[T], w) == old(value(db, db.schemas[T], w)))
+//@ ensures [C01 FlushAndCommit.wf] wfDB(db)
+//@ modifies Ghost.ACQ_H, Ghost.FSk, Ghost.FSc, MapDom[string,Object], MapCard[string,Object], Async.routineStarted, MapDom[string,*Schema]@db.schemas, MapVal[string,*Schema]@db.schemas, MapCard[string,*Schema]@db.schemas
+//@ allocates Async.Enable, Async.Threshold, Async.Timeout, Elem[*indexedField], Elem[interface{}], Elem[string], Elem[uint8], MapCard[string,*fieldIndex], MapCard[string,uint64], MapCard[uint64,*indexedField], MapCard[uint64,string], MapDom[string,*fieldIndex], MapDom[string,uint64], MapDom[uint64,*indexedField], MapDom[uint64,string], MapVal[string,*fieldIndex], MapVal[string,uint64], MapVal[uint64,*indexedField], MapVal[uint64,string], Object.content, Object.uuid, Schema.AsyncWrites, Schema.Cache, Schema.Compress, Schema.Extension, Schema.Fields, Schema.ObjectIndex, Schema.coherent, Schema.db, Schema.object, Schema.transformers, fieldIndex.Cast, fieldIndex.Constraints.Index, fieldIndex.Constraints.Lower, fieldIndex.Constraints.Unique, fieldIndex.Constraints.Upper, fieldIndex.Index, fieldIndex.Name, fieldIndex.nameSplit, fieldIndex.objectIds, fieldIndex.pos, indexedField.ObjectId, indexedField.Value, objIndex.Fields, objIndex.ObjectIds, objIndex.i, objIndex.otype, objIndex.uuids, objIndex.ver
+
+//@ func (*DB).FlushAll
+//@ serves C08 C09 C10
+//@ requires [wf] wfDB(db) && of != nil
+//@ requires [C09 lock-free] lockFree()
+//@ let T string := stypeOf(dyntype(of))
+//@ assume [pending-loaded] imp(has(db.asyncw.m, stypeOf(dyntype(of))) && !forallk(u, string, !has(db.asyncw.m[stypeOf(dyntype(of))].m, u)), has(db.schemas, stypeOf(dyntype(of))) && db.schemas[stypeOf(dyntype(of))].coherent)
+//@ assume [single-collection] forallk(t, string, imp(has(db.schemas, t), t == T))
+//@ ensures [C08 one-section] ACQ_H == old(ACQ_H) + 1 && lockFree()
+//@ ensures [C10 FlushAll.done] imp(err == nil && has(db.schemas, T), forallk(u, string, !pend(db, db.schemas[T], u)))
+//@ ensures [C10 FlushAll.effect] imp(has(db.schemas, T), flushedColl(db, db.schemas[T]))
+//@ ensures [C01 FlushAll.wf] wfDB(db)
+//@ modifies Ghost.ACQ_H, Ghost.FSk, Ghost.FSc, MapDom[string,Object], MapCard[string,Object], Async.routineStarted
+//@ allocates Async.Enable, Async.Threshold, Async.Timeout, Elem[*indexedField], Elem[interface{}], Elem[string], Elem[uint8], MapCard[string,*Schema], MapCard[string,*fieldIndex], MapCard[string,uint64], MapCard[uint64,*indexedField], MapCard[uint64,string], MapDom[string,*Schema], MapDom[string,*fieldIndex], MapDom[string,uint64], MapDom[uint64,*indexedField], MapDom[uint64,string], MapVal[string,*Schema], MapVal[string,*fieldIndex], MapVal[string,uint64], MapVal[uint64,*indexedField], MapVal[uint64,string], Schema.AsyncWrites, Schema.Cache, Schema.Compress, Schema.Extension, Schema.Fields, Schema.ObjectIndex, Schema.coherent, Schema.db, Schema.object, Schema.transformers, fieldIndex.Cast, fieldIndex.Constraints.Index, fieldIndex.Constraints.Lower, fieldIndex.Constraints.Unique, fieldIndex.Constraints.Upper, fieldIndex.Index, fieldIndex.Name, fieldIndex.nameSplit, fieldIndex.objectIds, fieldIndex.pos, indexedField.ObjectId, indexedField.Value, objIndex.Fields, objIndex.ObjectIds, objIndex.i, objIndex.otype, objIndex.uuids, objIndex.ver
+
+//@ func (*DB).FlushAllAndCommit
+//@ serves C04 C08 C09 C10
+//@ requires [wf] wfDB(db) && of != nil
+//@ requires [C09 lock-free] lockFree()
+//@ let T string := stypeOf(dyntype(of))
+//@ assume [single-collection] forallk(t, string, imp(has(db.schemas, t), t == T))
+//@ ensures [C08 one-section] ACQ_H == old(ACQ_H) + 1 && lockFree()
+//@ ensures [C10 C04 FlushAllAndCommit.done] imp(last == nil && old(has(db.schemas, T)), forallk(u, string, !pend(db, db.schemas[T], u)) && committed(db, db.schemas[T]))
+//@ ensures [C01 FlushAllAndCommit.wf] wfDB(db)
+//@ modifies Ghost.ACQ_H, Ghost.FSk, Ghost.FSc, MapDom[string,Object], MapCard[string,Object], Async.routineStarted, MapDom[string,*Schema]@db.schemas, MapVal[string,*Schema]@db.schemas, MapCard[string,*Schema]@db.schemas
+//@ allocates Async.Enable, Async.Threshold, Async.Timeout, Elem[*indexedField], Elem[string], Elem[uint8], MapCard[string,*fieldIndex], MapCard[string,uint64], MapCard[uint64,*indexedField], MapCard[uint64,string], MapDom[string,*fieldIndex], MapDom[string,uint64], MapDom[uint64,*indexedField], MapDom[uint64,string], MapVal[string,*fieldIndex], MapVal[string,uint64], MapVal[uint64,*indexedField], MapVal[uint64,string], Schema.AsyncWrites, Schema.Cache, Schema.Compress, Schema.Extension, Schema.Fields, Schema.ObjectIndex, Schema.coherent, Schema.db, Schema.object, Schema.transformers, fieldIndex.Cast, fieldIndex.Constraints.Index, fieldIndex.Constraints.Lower, fieldIndex.Constraints.Unique, fieldIndex.Constraints.Upper, fieldIndex.Index, fieldIndex.Name, fieldIndex.nameSplit, fieldIndex.objectIds, fieldIndex.pos, indexedField.ObjectId, indexedField.Value, objIndex.Fields, objIndex.ObjectIds, objIndex.i, objIndex.otype, objIndex.uuids, objIndex.ver
+//@ allocates Elem[interface{}]
+
+
+// ---- integrity: Repair, Control, Drop (C11) -------------------------------------------------------
+// Repair: what is proved is safety (no panic, lock discipline, one critical section), that object files are
+// not modified (apart from pending writes being flushed first), that the index stays well formed and that a
+// successful Repair commits. That the repaired index agrees with the files (Control succeeds afterwards) is
+// NOT proved: it needs the behaviour of reads on a collection whose index is known to be wrong.
+//@ func (*DB).Repair
+//@ serves C04 C08 C09 C11 C19
+//@ requires [wf] wfDB(db) && of != nil && callerOwned(db, of)
+//@ requires [C09 lock-free] lockFree()
+//@ let T string := stypeOf(dyntype(of))
+//@ assume [single-collection] forallk(t, string, imp(has(db.schemas, t), t == T))
+//@ assume [pending-loaded] imp(has(db.asyncw.m, stypeOf(dyntype(of))) && !forallk(u, string, !has(db.asyncw.m[stypeOf(dyntype(of))].m, u)), has(db.schemas, stypeOf(dyntype(of))) && db.schemas[stypeOf(dyntype(of))].coherent)
+//@ assume [uuid-shape] !uuidShaped("")
+//@ ensures [C08 one-section] ACQ_H == old(ACQ_H) + 1 && lockFree()
+//@ ensures [C11 Repair.object-files-untouched] imp(old(has(db.schemas, T)), forallk(p, string, imp(p != spath(db, db.schemas[T]) && forallk(u, string, imp(old(pend(db, db.schemas[T], u)), p != opath(db, db.schemas[T], u))), FSk[p] == old(FSk[p]) && FSc[p] == old(FSc[p]))))
+//@ ensures [C10 C11 Repair.flushes-first] imp(err == nil && old(has(db.schemas, T)), forallk(u, string, !pend(db, db.schemas[T], u)))
+//@ ensures [C04 Repair.committed] imp(err == nil, has(db.schemas, T) && committed(db, db.schemas[T]))
+//@ ensures [C01 Repair.wf-base] wfDBbase(db)
+//@ loop 1 invariant [frame] preserved(DB.schemas, DB.cache, DB.asyncw, DB.root, Schema.ObjectIndex, Schema.object, Schema.db, Schema.AsyncWrites, Schema.Extension, Schema.Compress) && preservedAt(MapDom[string,*Schema], db.schemas) && preservedAt(MapVal[string,*Schema], db.schemas) && preservedAt(MapCard[string,*Schema], db.schemas) && preserved(MapDom[string,bool], MapVal[string,bool], MapCard[string,bool])
+//@ loop 1 snap S1
+//@ loop 1 invariant [locals] H == 2 && SL == 0 && HS == 0 && HM == 0 && ACQ_H == old(ACQ_H) + 1 && s != nil && uuids != nil
+//@ loop 1 invariant [table] has(db.schemas, T) && db.schemas[T] == s && forallk(t, string, imp(has(db.schemas, t), t == T))
+//@ loop 1 invariant [wf] wfDBbase(db) && callerOwned(db, of)
+//@ loop 1 invariant [fs] FSk == since(S1, old(FSk)) && FSc == since(S1, old(FSc)) && since(S1, asyncwSame(db))
+//@ loop 1 invariant [shaped] forallk(u, string, imp(has(uuids, u), uuidShaped(u)))
+//@ loop 2 snap S2
+//@ loop 2 invariant [frame] preserved(DB.schemas, DB.cache, DB.asyncw, DB.root, Schema.ObjectIndex, Schema.object, Schema.db, Schema.AsyncWrites, Schema.Extension, Schema.Compress) && preservedAt(MapDom[string,*Schema], db.schemas) && preservedAt(MapVal[string,*Schema], db.schemas) && preservedAt(MapCard[string,*Schema], db.schemas) && preserved(MapDom[string,bool], MapVal[string,bool], MapCard[string,bool])
+//@ loop 2 invariant [locals] H == 2 && SL == 0 && HS == 0 && HM == 0 && ACQ_H == old(ACQ_H) + 1 && s != nil
+//@ loop 2 invariant [table] has(db.schemas, T) && db.schemas[T] == s && forallk(t, string, imp(has(db.schemas, t), t == T))
+//@ loop 2 invariant [wf] wfDBbase(db)
+//@ loop 2 invariant [fs] FSk == since(S2, old(FSk)) && FSc == since(S2, old(FSc)) && since(S2, asyncwSame(db))
+//@ modifies Ghost.ACQ_H, Ghost.FSk, Ghost.FSc, Object.uuid, Object.content, Async.routineStarted, MapDom[string,*Schema]@db.schemas, MapVal[string,*Schema]@db.schemas, MapCard[string,*Schema]@db.schemas, MapDom[string,*objectMap], MapVal[string,*objectMap], MapCard[string,*objectMap], MapDom[string,Object], MapVal[string,Object], MapCard[string,Object], objIndex.i, objIndex.ver, MapDom[string,uint64], MapVal[string,uint64], MapCard[string,uint64], MapDom[uint64,string], MapVal[uint64,string], MapCard[uint64,string], fieldIndex.Index, fieldIndex.pos, MapDom[uint64,*indexedField], MapVal[uint64,*indexedField], MapCard[uint64,*indexedField], Elem[*indexedField]
+//@ allocates Async.Enable, Async.Threshold, Async.Timeout, Constraints.Index, Constraints.Lower, Constraints.Unique, Constraints.Upper, Elem[interface{}], Elem[os.DirEntry], Elem[string], Elem[uint8], MapCard[string,*fieldIndex], MapCard[string,bool], MapDom[string,*fieldIndex], MapDom[string,bool], MapVal[string,*fieldIndex], MapVal[string,bool], Schema.AsyncWrites, Schema.Cache, Schema.Compress, Schema.Extension, Schema.Fields, Schema.ObjectIndex, Schema.coherent, Schema.db, Schema.object, Schema.transformers, fieldIndex.Cast, fieldIndex.Constraints.Index, fieldIndex.Constraints.Lower, fieldIndex.Constraints.Unique, fieldIndex.Constraints.Upper, fieldIndex.Name, fieldIndex.nameSplit, fieldIndex.objectIds, indexedField.ObjectId, indexedField.Value, objIndex.Fields, objIndex.ObjectIds, objIndex.otype, objIndex.uuids, objectMap.RWMutex, objectMap.m
+
+//@ func (*DB).Control
+//@ serves C08 C09 C11 C19
+//@ requires [wf] wfDBbase(db)
+//@ requires [C09 lock-free] lockFree()
+//@ ensures [C08 one-section] ACQ_H == old(ACQ_H) + 1 && lockFree()
+//@ ensures [C11 Control.every-collection] imp(err == nil, forallk(t, string, imp(has(db.schemas, t), idxConsistent(db.schemas[t].ObjectIndex) && forallk(n, string, imp(FSk[cdirf(db.root, itemOf(dyntype(db.schemas[t].object))) + "/" + n] != 0 && uuidShaped(prefixOf(n)), has(db.schemas[t].ObjectIndex.uuids, prefixOf(n)))))))
+//@ ensures [C17 Control.readonly] FSk == old(FSk) && FSc == old(FSc)
+//@ ensures [C01 Control.wf] wfDBbase(db) && imp(old(collsOK(db)), collsOK(db))
+//@ loop 1 invariant [locals] H == 2 && SL == 0 && HS == 0 && HM == 0 && ACQ_H == old(ACQ_H) + 1 && FSk == old(FSk) && FSc == old(FSc) && err == nil
+//@ loop 1 invariant [wf] wfDBbase(db) && imp(old(collsOK(db)), collsOK(db))
+//@ loop 1 invariant [checked] imp(err == nil, forallk(t, string, imp(has(db.schemas, t) && visited(t), idxConsistent(db.schemas[t].ObjectIndex) && forallk(n, string, imp(FSk[cdirf(db.root, itemOf(dyntype(db.schemas[t].object))) + "/" + n] != 0 && uuidShaped(prefixOf(n)), has(db.schemas[t].ObjectIndex.uuids, prefixOf(n)))))))
+//@ modifies Ghost.ACQ_H
+//@ allocates Elem[interface{}], Elem[os.DirEntry], Elem[string], FieldDescriptor.Constraints.Index, FieldDescriptor.Constraints.Lower, FieldDescriptor.Constraints.Unique, FieldDescriptor.Constraints.Upper, FieldDescriptor.Path, FieldDescriptor.Type, MapCard[string,FieldDescriptor], MapCard[string,bool], MapDom[string,FieldDescriptor], MapDom[string,bool], MapVal[string,bool]
+
+//@ func (*DB).Drop
+//@ serves C08 C09
+//@ requires [wf] db != nil
+//@ requires [C09 lock-free] lockFree()
+//@ ensures [C08 one-section] ACQ_H == old(ACQ_H) + 1 && lockFree()
+//@ modifies Ghost.ACQ_H, Ghost.FSk, Ghost.FSc
+
+// ---- decoders of schema.json (C19: whatever the file holds, an error or a value, never a panic) ------
+// encoding/json, strconv and time.ParseDuration calls have no contract on purpose: after each of them the
+// whole heap is unknown (what was decoded is arbitrary), so the obligations below hold for every content.
+
+//@ func (*indexedField).valueTypeFromString
+//@ serves C19 C04
+//@ requires f != nil
+//@ ensures [C19 vts.class] imp(err != nil, errIs(err, ErrCasting) || errIs(err, ErrUnknownKeyType))
+//@ ensures [C04 vts.kind] imp(err == nil, (t == "string" && isVStr(f.Value)) || (t == "float64" && typeis(f.Value, float64)) || (t == "int64" && typeis(f.Value, int64)) || (t == "uint64" && typeis(f.Value, uint64)))
+//@ modifies indexedField.Value@f
+//@ allocates Elem[interface{}]
+
+//@ func (*indexedField).UnmarshalJSON
+//@ serves C19 C04
+//@ requires f != nil
+
+//@ func (*fieldIndex).UnmarshalJSON
+//@ serves C19 C04
+//@ requires i != nil
+//@ loop 1 invariant [locals] i != nil
+
+//@ func (*objIndex).UnmarshalJSON
+//@ serves C19 C04
+//@ requires in != nil
+//@ skip overflow "the id counter is 64 bits: the maximum stored id plus one does not wrap (ids are handed out from 0)"
+//@ loop 1 invariant [locals] in != nil
+//@ loop 2 invariant [locals] in != nil
+
+//@ func (*Async).UnmarshalJSON
+//@ serves C19
+//@ requires a != nil
